@@ -272,6 +272,7 @@ Definition reviewed_writes : list (string * string * wclass) :=
     (* scratch of one call *)
     (chp ++ ".LineFormatPlanner", "args", WResetPerCall);          (* ProcessTpl starts from "", nil (fix 3563df1) *)
     (chp ++ ".LineFormatPlanner", "formatStr", WResetPerCall);
+    (chp ++ ".LineFormatPlanner", "text", WResetPerCall);          (* the raw template text, reset with the two above (fix d930ef5, b4-lf) *)
     (tqp ++ ".AttrConditionPlanner", "isAliased", WResetPerCall);  (* false again when Process returns *)
     (inp ++ ".ByWithoutPlanner", "labels", WResetPerCall);
     (inp ++ ".ParserPlanner", "logfmtFields", WResetPerCall);
